@@ -38,9 +38,11 @@ NestQ(kind, n) ==
     \* a function TEST whose argument contains a filter whose test is again such a function: $[?match(value(@[?match(value(@.b), 'x')].b), 'x')]
     [] kind = "fnfilter" -> <<36, 91, 63, 109, 97, 116, 99, 104, 40, 118, 97, 108, 117, 101, 40>> \o Rep(<<64, 91, 63, 109, 97, 116, 99, 104, 40, 118, 97, 108, 117, 101, 40>>, n)
                             \o <<64, 46, 98>> \o Rep(<<41, 44, 32, 39, 120, 39, 41, 93, 46, 98>>, n) \o <<41, 44, 32, 39, 120, 39, 41, 93>>
+    \* comparisons with >= whose operands are equal at every level, over a document nested as deep: $[?count(@[?count(@[*]) >= 1]) >= 1]
+    [] kind = "gefilter" -> <<36, 91, 63, 99, 111, 117, 110, 116, 40>> \o Rep(<<64, 91, 63, 99, 111, 117, 110, 116, 40>>, Max2(n - 3, 0)) \o <<64, 91, 42, 93>> \o Rep(<<41, 32, 62, 61, 32, 49, 93>>, Max2(n - 3, 0)) \o <<41, 32, 62, 61, 32, 49, 93>>
     \* the same with comparisons: $[?count(@[?count(@.b) > 0]) > 0]
     [] kind = "cmpfilter" -> <<36, 91, 63, 99, 111, 117, 110, 116, 40>> \o Rep(<<64, 91, 63, 99, 111, 117, 110, 116, 40>>, n) \o <<64, 46, 98>> \o Rep(<<41, 32, 62, 32, 48, 93>>, n) \o <<41, 32, 62, 32, 48, 93>>
-NestKinds == <<"paren", "notparen", "filter", "index", "name", "desc", "fn", "and", "union", "fnfilter", "cmpfilter">>
+NestKinds == <<"paren", "notparen", "filter", "index", "name", "desc", "fn", "and", "union", "fnfilter", "cmpfilter", "gefilter">>
 Depths == IF Thorough THEN <<8, 64, 512, 4096>> ELSE <<8, 64, 512>>
 
 \* extreme integers and literals (as strings: TLC integers are 32-bit)
@@ -128,6 +130,8 @@ ExportCases ==
                                    doc |-> [nest |-> Depths[d], kind |-> IF k % 2 = 0 THEN "arr" ELSE "obj"], verdict |-> "valid"])>>)
   /\ \A k \in 1..Len(ExtremeQ) :
         PrintT(<<"REPLAY", ToJson([id |-> <<"extreme", "", k>>, kind |-> "extreme", q |-> ExtremeQ[k], doc |-> [nest |-> (k % 4), kind |-> "arr"], verdict |-> Verdict(ExtremeQ[k])])>>)
+  /\ PrintT(<<"REPLAY", ToJson([id |-> <<"flat", "index", 60000>>, q |-> <<36, 91, 42, 93>> \o [i \in 1..180000 |-> CASE i % 3 = 1 -> 91 [] i % 3 = 2 -> 48 [] OTHER -> 93],
+                                 doc |-> [nest |-> 1, kind |-> "arr"], verdict |-> "valid"])>>)      \* $[*][0][0]...[0]  (60 000 segments)
   /\ \A n \in {16, 24, 32, 48, 64} :      \* two EQUAL deep documents compared with == (cost must not explode with the depth)
         /\ PrintT(<<"REPLAY", ToJson([id |-> <<"deeppair", "obj", n>>, q |-> <<36, 91, 63, 64, 61, 61, 36, 91, 48, 93, 93>>, doc |-> [nest |-> n, kind |-> "pairobj"], verdict |-> "valid"])>>)
         /\ PrintT(<<"REPLAY", ToJson([id |-> <<"deeppair", "arr", n>>, q |-> <<36, 91, 63, 64, 60, 61, 36, 91, 49, 93, 93>>, doc |-> [nest |-> n, kind |-> "pairarr"], verdict |-> "valid"])>>)
